@@ -392,4 +392,11 @@ def r5_forms(run, tree):
            "'side' does not put the angular momentum in the image plane")
 
 
-RULES = [r1_axis_table, r2_constructor, r3_perpendicular, r4_handedness, r5_forms]
+def r6_norm_fresh(run, tree):
+    from . import core_folds as cf
+    run.rule("C18.R6", "normalisation divides by the CURRENT length: Vector.norm is recomputed from the components on every access "
+             "(shared with C09)", "D7 fold of Vector.norm over a history with an in-place component update", "", floor=1)
+    cf.check_vector_norm_fresh(run, tree)
+
+
+RULES = [r6_norm_fresh, r1_axis_table, r2_constructor, r3_perpendicular, r4_handedness, r5_forms]
